@@ -26,6 +26,7 @@ import time
 
 from .. import build, engines, sweep, census
 from ..gen import gen, ast as A
+from . import c04_families
 from ..run import pmap, Scratch, Result, run as sh
 
 LEVEL = "exploration"
@@ -1589,6 +1590,32 @@ def run(ctx):
             cell_out[name] = " ".join(labs)
         n_cells_clean = sum(1 for v in cell_out.values() if "stuck" not in v and "rejected" not in v and "watchdog" not in v)
 
+        # ---- (2b) well-formed families outside the generator's discipline (c04_families.py) -----------------------------
+        fam_cells = [(n, ("declorder", a, b), fs) for n, a, b, fs in c04_families.declorder_cells(not ctx.quick())] + \
+                    [(n, ("globalinit", a, b), fs) for n, a, b, fs in c04_families.globalinit_cells(not ctx.quick())]
+
+        def do_fam(c):
+            return c, both(sc.sub("fam/" + c[0].replace("/", "_")), c[2])
+
+        fam_hist = {}
+        fam_clean = set()
+        for (name, (fam, a, b), fs), (v, n) in pmap(do_fam, fam_cells):
+            for side, o in (("vm", v), ("native", n)):
+                if o is None:
+                    continue
+                lab = "%s:%s:%s" % (fam, side, o.cls)
+                fam_hist[lab] = fam_hist.get(lab, 0) + 1
+                if o.cls == "stuck":
+                    # keyed by family member (shape and order class / initialiser and mutability), stage and message
+                    o.key = "family|%s|%s|%s|%s|%s" % (fam, a, b, o.stage, o.detail)
+                    note_stuck(o, "family cell " + name)
+                    report(ctx, o, "family cell %s (%s backend): a well-formed program is accepted, then stuck at stage '%s': %s" % (
+                        name, side, o.stage, o.detail), fs)
+            if v.cls == "ok" and n is not None and n.cls == "ok":
+                fam_clean.add((fam, a))
+        if not ctx.violations:
+            ctx.require(len(fam_clean) >= 40, "only %d family members ran clean on both backends: %s" % (len(fam_clean), fam_hist))
+
         # ---- (1) generator programs with the default switches: must be clean ------------------------------------------
         nprog = ctx.n(150, 1500)
         batch = sweep.gen_batch(ctx, nprog)
@@ -1757,7 +1784,7 @@ def run(ctx):
                 mi, kind, side, oc.stage, oc.detail), files, shrunk.pop(mi, None))
 
         # ---- evidence -----------------------------------------------------------------------------------------------------
-        total = len(cell_names) + len(batch) + len(muts)
+        total = len(cell_names) + len(fam_cells) + len(batch) + len(muts)
         if not ctx.violations:
             ctx.require(watchdogs[0] <= max(3, total // 50), "too many watchdog expiries (%d): machine overloaded" % watchdogs[0])
             ctx.require(n_clean >= len(batch) * 0.8, "only %d of %d generated programs ran clean on both backends: %s" % (
@@ -1771,10 +1798,14 @@ def run(ctx):
             samples.append({"what": "stuck key %s" % k, "first_seen_in": origins[0], "occurrences": len(origins)})
         return ctx.finish({
             "evaluations": total,
-            "distinct_nontrivial": len(pair_set) + len(clean_sets) + n_cells_clean,
+            "distinct_nontrivial": len(pair_set) + len(clean_sets) + n_cells_clean + len(fam_clean),
             "rule": "distinct (mutation kind, backend:outcome label) pairs among mutants the type checker accepted, plus distinct feature-tag "
-                    "sets of generated programs that ran to a normal exit on both backends, plus cells that were not stuck",
+                    "sets of generated programs that ran to a normal exit on both backends, plus cells that were not stuck, plus family members "
+                    "(declaration-order shapes, global initialisers) that ran clean on both backends",
             "cells": len(cell_names),
+            "family_cells": len(fam_cells),
+            "family_outcomes": dict(sorted(fam_hist.items())),
+            "family_members_clean_on_both_backends": len(fam_clean),
             "cells_outcome": cell_out,
             "programs_default_switches": len(batch),
             "programs_clean_both_backends": n_clean,
